@@ -474,12 +474,11 @@ func handlePM(raw json.RawMessage) interface{} {
 	ctl.mu.Unlock()
 	close(stopSample)
 	sampleWG.Wait()
-	// shut the master down (it kills its children), clean the named pipe
-	syscall.Kill(os.Getpid(), syscall.SIGTERM)
-	select {
-	case <-masterDone:
-	case <-time.After(3 * time.Second):
-	}
+	// no orderly shutdown of the master: asking it to stop while one of its spawn loops is still starting a worker makes the
+	// master end the whole process (log.Fatalf "启动子进程失败 ... use of closed network connection") before this case's result is
+	// written - a shutdown race that is not part of the property and was once reported as a violation (seed 2, loaded machine).
+	// The result is marked _fresh: the pool kills this worker's process group (master, workers) right after reading it.
+	_ = masterDone
 	reqWG.Wait()
 	// remove OUR named pipe (the master leaves it behind): the one this process has open
 	fds, _ := os.ReadDir("/proc/self/fd")
